@@ -382,7 +382,8 @@ def cancellation_propagates(ctx, rep, rule):
         for st, kind, node in out.exc:
             if st.a('cdelivered'):
                 n += 1
-                rep.check(kind[0] == 'Cancelled', rule,
+                rep.check(kind[0] == 'Cancelled' or (kind[0] == 'Raise' and (kind[1] or '').endswith('CancelledError')),
+                          rule,
                           "%s leaves by the CancelledError it received (%s)" % (_where_of(ctx, ip, node), what),
                           _func_of(ctx, node) or f.qualname,
                           "a cancelled activation is left by %s" % (kind,),
